@@ -46,6 +46,7 @@ EXPLANATION += ' (R5, round 8) also doc_start_sync / doc_leave, and the close of
 EXPLANATION += ' (R11, round 9) the OpenOpts builders evaluated: sync() sets the flag and keeps the subscriber, subscribe(tx) sets the subscriber and keeps the flag.'
 EXPLANATION += ' (R12, round 11) = the load cells of C07.R13: a failed open marks nothing open.'
 EXPLANATION += " (R13, round 13) the store's author functions evaluated: get_author answers from the authors row of the id asked, read in this very call (absent = None), import_author stores the secret under its own id, delete_author removes the row of the id given."
+EXPLANATION += ' (R14, round 14) = C07.R4: importing a capability for an open document merges it in place (it neither re-opens the document nor touches the handle count).'
 
 
 def actor_bodies(f):
@@ -652,6 +653,13 @@ def r13(ctx):
     ctx.check(got == "Ok(())" and log == [("authors.remove", ["b(author)"])], "C14.R13", de.path, "delete_author", "returns %s; table accesses %s; spec: the row of the id given removed" % (got, log), de.sp)
     ctx.floor("C14.R13", 5)
 
+def r14(ctx):
+    """"every open adds a handle and every close of an open document releases one" - nothing else does: importing a capability for a
+    document that is open merges it into the open replica's state in place (the import handler evaluated, = C07.R4; C14-13
+    re-opened the document instead, which reset the handle count to one and dropped the subscribers)"""
+    from . import C07
+    ctx.share("C14.R14", C07.r4, "C07.R4", keep=lambda k: "import[" in k, floor=4)
+
 def run(ctx):
     ctx.run_rule("C14.R1", r1)
     ctx.run_rule("C14.R2", r2)
@@ -666,3 +674,4 @@ def run(ctx):
     ctx.run_rule("C14.R11", r11)
     ctx.run_rule("C14.R12", r12)
     ctx.run_rule("C14.R13", r13)
+    ctx.run_rule("C14.R14", r14)
